@@ -85,7 +85,10 @@ class IntervalObj(PyObj):
     def __init__(self, period): self.period = period; self.polls = 0
     def m_poll_tick(self, e, *a):
         self.polls += 1
-        if env_choice(e, 'tick', 2) == 0: return Enum('Poll', 1)
+        if env_choice(e, 'tick', 2) == 0:
+            ph = getattr(e, 'pending_hook', None)
+            if ph: ph('timer')
+            return Enum('Poll', 1)
         from .misc import now
         return Enum('Poll', 0, [now(e)])
 
